@@ -41,7 +41,9 @@ POOL = NUMBERS + TEXTS + [True, False, None] + ERR
 HOSTILE_TEXT = ['inf', 'nan', '-Infinity', 'false', '1_0', '0x10', '1,000', '$3', '3%', '1/2',
                 '１２', '+3', '3.', '.5', '1E+2', '- 3', '3 4', '1e', 'e1',
                 # characters that str.isdigit() accepts and int() rejects, digits of another script
-                '\u00b2', '\u2460', '\u00b3\u00b9', '\u0663', '\u00bd']
+                '\u00b2', '\u2460', '\u00b3\u00b9', '\u0663', '\u00bd',
+                # text that means something to str.format / % / a regular expression
+                '{x}', 'a{', '}', '{}', '{0}', '%s', '%(a)s', '\\1', '$1']
 ORDER_POOL = [v for v in POOL if ref.kind(v) not in ('error', 'blank')]
 TRIPLE_POOL = [0, -1, 2, 0.5, -0.0, 3.0, '', 'abc', 'ABC', 'Abd', 'a_c', '3', ' 3 ', True, False]
 
@@ -51,6 +53,16 @@ GROUP = {'+': 'arith', '-': 'arith', '*': 'arith', '/': 'arith', '^': 'power', '
          'neg': 'unary-minus', 'pct': 'percent'}
 GROUP.update({op: 'compare' for op in ref.COMPARE})
 EMPTY = '#EMPTY!'      # what a compiled formula passes as the left operand of a prefix minus
+
+
+class SubFloat(float):
+    """a float of another class (like ruamel.yaml's ScalarFloat, which a loaded model holds)"""
+
+
+def exotic_numbers():
+    import numpy as np
+    return [np.float64(3.0), np.float64(2.5), np.float64(-0.5), np.float64(0.0), np.float64(0.00001),
+            SubFloat(3.0), SubFloat(2.5), SubFloat(100000.0)]
 
 
 def ops_for(a, b):
@@ -289,8 +301,35 @@ def show(got):
     return f'{v!r} ({type(v).__name__})'
 
 
+def plain(x):
+    """a number of a float subclass as the float it is (a logical of numpy's own class is not a logical of the
+    workbook: '&' renders it as 'False', not as 'FALSE')"""
+    if isinstance(x, float) and type(x) is not float:
+        return float(x)
+    return x
+
+
+def type_tag(x):
+    return None if type(x) in (int, float, bool, str, type(None)) else f'{type(x).__module__}.{type(x).__name__}'
+
+
+def retag(x, tag):
+    if tag == 'numpy.float64':
+        import numpy as np
+        return np.float64(x)
+    if tag and tag.endswith('SubFloat'):
+        return SubFloat(x)
+    return x
+
+
 def judge(ctx, route, op, a, b, got, text=None, sampled=False, report=True):
     """one observed result against the model; returns the mechanism key or None"""
+    tags = (type_tag(a), type_tag(b))
+    if any(tags):
+        # operands of a float subclass are the numbers they hold; a result of such a class likewise
+        a, b = plain(a), plain(b)
+        if got[0] == 'v':
+            got = ('v', plain(got[1]))
     exp = ref.expect(op, a, b)
     ctx.count('route:' + route)
     ctx.count('op:' + op)
@@ -307,7 +346,7 @@ def judge(ctx, route, op, a, b, got, text=None, sampled=False, report=True):
     if report:
         spelled = text or (f'-{a!r}' if op == 'neg' else f'{a!r}%' if op == 'pct' else f'{a!r} {op} {b!r}')
         ctx.violation(key, f'[{route}] {spelled} -> {show(got)}; the statement allows: {exp.describe()}',
-                      {'kind': 'pair', 'route': route, 'op': op, 'a': a, 'b': b, 'text': text})
+                      {'kind': 'pair', 'route': route, 'op': op, 'a': a, 'b': b, 'text': text, 'types': tags})
     return key
 
 
@@ -596,10 +635,27 @@ def run(ctx):
                     if not ref.in_bounds(op, a, b):
                         continue
                     ctx.count('hostile-text-cases')
-                    run_routes(ctx, op, a, b, ('ctx-cells',) if k % 4 == 0 else ())
+                    run_routes(ctx, op, a, b, ('ctx-cells',) if k % 2 == 0 else ())
         if ctx.mine(k):
             for op in ref.UNARY:
                 run_routes(ctx, op, t, None, ('ctx-cells',))
+    # 2b. numbers that are instances of a subclass of float: what SLOPE / FORECAST return (numpy.float64), what
+    #     a model loaded from yml / json holds (ruamel's ScalarFloat).  They are numbers like any other.
+    k = 0
+    for x in exotic_numbers():
+        for v in POOL:
+            k += 1
+            if not ctx.mine(k):
+                continue
+            for op in ref.BINARY:
+                for a, b in ((x, v), (v, x)):
+                    if not ref.in_bounds(op, a, b):
+                        continue
+                    ctx.count('float-subclass-cases')
+                    run_routes(ctx, op, a, b, ('ctx-cells',) if k % 3 == 0 else ())
+        if ctx.mine(k):
+            for op in ref.UNARY:
+                run_routes(ctx, op, x, None, ())
     # 3. laws of the order on pycel's own answers, all pool values that are not errors
     order_vals = [v for v in POOL if ref.kind(v) != 'error']
     laws_over(ctx, order_vals, lambda o, x, y: via_fixup(o, x, y))
@@ -634,6 +690,8 @@ def replay(ctx, case):
         laws_over(ctx, vals, lambda o, x, y: via_fixup(o, x, y), shard_pairs=False)
         return
     op, a, b, route = case['op'], case['a'], case['b'], case['route']
+    if any(case.get('types') or ()):
+        a, b = retag(a, case['types'][0]), retag(b, case['types'][1])
     if route == 'fixup':
         judge(ctx, 'fixup', op, a, b, via_fixup(op, a, b))
         return
